@@ -22,10 +22,43 @@ def _mentions_macro(e, name):
 
 def _field_stores(fn, field):
     out = []
+    slots = None
     for a in assignments(fn):
         l = strip_casts(a['l'])
         if l.get('k') == 'mem' and l['f'] == field:
             out.append((a, l))
+        elif l.get('k') == 'un' and l.get('op') == '*' and strip_casts(l['e']).get('k') == 'ref' and a['op'] == '=':
+            # *link = v, link a local that only ever holds addresses of fields (&x->child, &y->next): a store to each field of that
+            # name it may designate
+            if slots is None:
+                slots = {}
+                defs = {}
+                for d_ in fn.locals():
+                    if 'init' in d_:
+                        defs.setdefault(d_['d'], []).append(d_['init'])
+                for a2 in assignments(fn):
+                    if is_ref(a2['l']):
+                        defs.setdefault(strip_casts(a2['l'])['d'], []).append(a2['r'] if a2['op'] == '=' else None)
+                for d_, rs_ in defs.items():
+                    tg = []
+                    ok = True
+                    for r_ in rs_:
+                        if r_ is None:
+                            ok = False
+                            break
+                        r0 = strip_casts(r_)
+                        if is_null_const(r_) or r0.get('null'):
+                            continue
+                        if r0.get('k') == 'un' and r0.get('op') == '&' and strip_casts(r0['e']).get('k') == 'mem':
+                            tg.append(strip_casts(r0['e']))
+                        else:
+                            ok = False
+                            break
+                    if ok and tg:
+                        slots[d_] = tg
+            for m_ in slots.get(strip_casts(l['e'])['d'], []):
+                if m_['f'] == field:
+                    out.append((a, m_))
     return out
 
 
